@@ -265,6 +265,10 @@ def reverseIterLinesText (c : List Nat) (bs : Nat) : List (Option (List Nat)) :=
 /-- what `.lstrip()` strips from a line (the table is regenerated from the code's behaviour) -/
 def pyWs (c : Nat) : Bool := Generated.lstripSet.contains c
 
+/-- what `.lstrip()` strips from a line of a text-mode file (`str.lstrip`: Unicode white space;
+    regenerated likewise, as code points) -/
+def pyWsT (c : Nat) : Bool := Generated.lstripSetT.contains c
+
 /-- what `.rstrip('\r\n')` strips (regenerated likewise) -/
 def lineEnd (c : Nat) : Bool := Generated.rstripSet.contains c
 
@@ -275,18 +279,18 @@ def rstripBy (rs : Nat → Bool) (l : List Nat) : List Nat := (l.reverse.dropWhi
 def lstrip (l : List Nat) : List Nat := lstripBy pyWs l
 
 /-- `line.lstrip().rstrip('\r\n')`: what `json.loads` is handed -/
-def lineNorm (l : List Nat) : List Nat := rstripBy lineEnd (lstripBy pyWs l)
+def lineNorm (ws : Nat → Bool) (l : List Nat) : List Nat := rstripBy lineEnd (lstripBy ws l)
 
 /-- draining `JSONLIterator.next` over the lines its `_line_iter` produces:
     (objects yielded, the error that ended the iteration if any) -/
-def consume {α ε : Type} (parse : List Nat → Except ε α) (ignore : Bool) :
+def consume {α ε : Type} (ws : Nat → Bool) (parse : List Nat → Except ε α) (ignore : Bool) :
     List (List Nat) → List α × Option ε
   | [] => ([], none)
   | l :: ls =>
-    if lineNorm l = [] then consume parse ignore ls
-    else match parse (lineNorm l) with
-      | .ok v => ((v :: (consume parse ignore ls).1), (consume parse ignore ls).2)
-      | .error e => if ignore then consume parse ignore ls else ([], some e)
+    if lineNorm ws l = [] then consume ws parse ignore ls
+    else match parse (lineNorm ws l) with
+      | .ok v => ((v :: (consume ws parse ignore ls).1), (consume ws parse ignore ls).2)
+      | .error e => if ignore then consume ws parse ignore ls else ([], some e)
 
 /-- iterating a binary file: pieces ending after each `\n`, line break kept -/
 def fileLinesB : List Nat → List (List Nat)
@@ -303,33 +307,39 @@ def fileLinesT : Bool → List Nat → List (List Nat)
     else consHead c (fileLinesT false cs)
 
 /-- forward mode, binary file -/
-def jsonlForwardB {α ε : Type} (parse : List Nat → Except ε α) (ignore : Bool) (c : List Nat) :=
-  consume parse ignore (fileLinesB c)
+def jsonlForwardB {α ε : Type} (ws : Nat → Bool) (parse : List Nat → Except ε α) (ignore : Bool) (c : List Nat) :=
+  consume ws parse ignore (fileLinesB c)
 
 /-- forward mode, text-mode file -/
-def jsonlForwardT {α ε : Type} (parse : List Nat → Except ε α) (ignore : Bool) (c : List Nat) :=
-  consume parse ignore (fileLinesT false c)
+def jsonlForwardT {α ε : Type} (ws : Nat → Bool) (parse : List Nat → Except ε α) (ignore : Bool) (c : List Nat) :=
+  consume ws parse ignore (fileLinesT false c)
 
 /-- reverse mode (either kind of file) with block size `bs` -/
-def jsonlReverse {α ε : Type} (parse : List Nat → Except ε α) (ignore : Bool) (bs : Nat) (c : List Nat) :=
-  consume parse ignore (reverseIterLines c bs)
+def jsonlReverse {α ε : Type} (ws : Nat → Bool) (parse : List Nat → Except ε α) (ignore : Bool) (bs : Nat) (c : List Nat) :=
+  consume ws parse ignore (reverseIterLines c bs)
 
+
+/-- reverse mode on a TEXT-mode file as the code does it: the byte lines of `reverse_iter_lines`,
+    each decoded (a line that does not decode would raise; `reverse_lines_text_no_error`), then `next` -/
+def jsonlReverseText {α ε : Type} (ws : Nat → Bool) (parse : List Nat → Except ε α) (ignore : Bool)
+    (bs : Nat) (c : List Nat) :=
+  consume ws parse ignore ((reverseIterLinesText c bs).filterMap id)
 
 /-- what one line contributes to the sequence of `next()` results: nothing (a blank line, or an
     undecodable one under `ignore_errors`), an object, or the error `next()` raises in strict mode —
     after which the caller may go on calling `next()`: the line iterator has moved past the line -/
-def outcomeOf {α ε : Type} (parse : List Nat → Except ε α) (ignore : Bool) (l : List Nat) :
+def outcomeOf {α ε : Type} (ws : Nat → Bool) (parse : List Nat → Except ε α) (ignore : Bool) (l : List Nat) :
     Option (Except ε α) :=
-  if lineNorm l = [] then none
-  else match parse (lineNorm l) with
+  if lineNorm ws l = [] then none
+  else match parse (lineNorm ws l) with
     | .ok v => some (.ok v)
     | .error e => if ignore then none else some (.error e)
 
 /-- the result of every `next()` call until StopIteration, errors included (iteration resumed
     after each error) -/
-def outcomes {α ε : Type} (parse : List Nat → Except ε α) (ignore : Bool) (ls : List (List Nat)) :
+def outcomes {α ε : Type} (ws : Nat → Bool) (parse : List Nat → Except ε α) (ignore : Bool) (ls : List (List Nat)) :
     List (Except ε α) :=
-  ls.filterMap (outcomeOf parse ignore)
+  ls.filterMap (outcomeOf ws parse ignore)
 
 /-- draining with a plain `for` loop: the objects before the first error, and that error -/
 def untilError {α ε : Type} : List (Except ε α) → List α × Option ε
@@ -339,16 +349,16 @@ def untilError {α ε : Type} : List (Except ε α) → List α × Option ε
 
 /-- forward mode: `cur_byte_pos` (= `file.tell()`) read after each object a plain loop yields;
     `pos` = offset of the start of the first line -/
-def consumePos {α ε : Type} (parse : List Nat → Except ε α) (ignore : Bool) : Nat → List (List Nat) → List Nat
+def consumePos {α ε : Type} (ws : Nat → Bool) (parse : List Nat → Except ε α) (ignore : Bool) : Nat → List (List Nat) → List Nat
   | _, [] => []
   | pos, l :: ls =>
-    if lineNorm l = [] then consumePos parse ignore (pos + l.length) ls
-    else match parse (lineNorm l) with
-      | .ok _ => (pos + l.length) :: consumePos parse ignore (pos + l.length) ls
-      | .error _ => if ignore then consumePos parse ignore (pos + l.length) ls else []
+    if lineNorm ws l = [] then consumePos ws parse ignore (pos + l.length) ls
+    else match parse (lineNorm ws l) with
+      | .ok _ => (pos + l.length) :: consumePos ws parse ignore (pos + l.length) ls
+      | .error _ => if ignore then consumePos ws parse ignore (pos + l.length) ls else []
 
-def jsonlForwardPosB {α ε : Type} (parse : List Nat → Except ε α) (ignore : Bool) (c : List Nat) : List Nat :=
-  consumePos parse ignore 0 (fileLinesB c)
+def jsonlForwardPosB {α ε : Type} (ws : Nat → Bool) (parse : List Nat → Except ε α) (ignore : Bool) (c : List Nat) : List Nat :=
+  consumePos ws parse ignore 0 (fileLinesB c)
 
 /-! ### JSONLIterator(rel_seek=…): start somewhere inside a text-mode file -/
 
@@ -367,25 +377,25 @@ def alignToNewline (c : List Nat) (target : Nat) : Option Nat :=
 
 /-- `JSONLIterator(f, ignore_errors, reverse, rel_seek)` drained, `target = int(size * rel_seek)`:
     forward mode reads the lines from the aligned position on, reverse mode the lines before it -/
-def jsonlRelSeek {α ε : Type} (parse : List Nat → Except ε α) (ignore reverse : Bool) (bs : Nat)
+def jsonlRelSeek {α ε : Type} (ws : Nat → Bool) (parse : List Nat → Except ε α) (ignore reverse : Bool) (bs : Nat)
     (c : List Nat) (target : Nat) : Option (List α × Option ε) :=
   match alignToNewline c target with
   | none => none
   | some p =>
-    some (if reverse then consume parse ignore (reverseIterLinesFrom c p bs)
-          else consume parse ignore (fileLinesT false (c.drop p)))
+    some (if reverse then consume ws parse ignore (reverseIterLinesFrom c p bs)
+          else consume ws parse ignore (fileLinesT false (c.drop p)))
 
 /-- `rel_seek=0.0` is special-cased by `_init_rel_seek`: position 0, no alignment -/
-def jsonlRelSeekZero {α ε : Type} (parse : List Nat → Except ε α) (ignore reverse : Bool) (bs : Nat)
+def jsonlRelSeekZero {α ε : Type} (ws : Nat → Bool) (parse : List Nat → Except ε α) (ignore reverse : Bool) (bs : Nat)
     (c : List Nat) : List α × Option ε :=
-  if reverse then consume parse ignore (reverseIterLinesFrom c 0 bs)
-  else consume parse ignore (fileLinesT false c)
+  if reverse then consume ws parse ignore (reverseIterLinesFrom c 0 bs)
+  else consume ws parse ignore (fileLinesT false c)
 
 /-- SPEC: the object a line contributes when errors are ignored: none for a blank line
     (nothing left after `line.lstrip().rstrip('\r\n')`) and for an undecodable one -/
-def objOf {α ε : Type} (parse : List Nat → Except ε α) (l : List Nat) : Option α :=
-  if lineNorm l = [] then none
-  else match parse (lineNorm l) with
+def objOf {α ε : Type} (ws : Nat → Bool) (parse : List Nat → Except ε α) (l : List Nat) : Option α :=
+  if lineNorm ws l = [] then none
+  else match parse (lineNorm ws l) with
     | .ok v => some v
     | .error _ => none
 
